@@ -3,6 +3,7 @@ mod c04;
 mod c05;
 mod c12;
 mod c13;
+mod c16;
 mod c18;
 mod c19;
 mod sim;
@@ -21,6 +22,7 @@ fn main() {
             "c05" => c05::run(&a[2..]),
             "c12" => c12::run(&a[2..]),
             "c13" => c13::run(&a[2..]),
+            "c16" => c16::run(&a[2..]),
             "c18" => c18::run(&a[2..]),
             "c19" => c19::run(&a[2..]),
             _ => {
